@@ -368,3 +368,18 @@ Theorem charges_are_leaves pen ops :
   forall c cit, get_item w c = Some cit -> ~ direct cit ->
     i_charge cit = None /\ i_autos cit = [] /\ (i_loaded cit <> None -> item_fit w c <> None).
 Proof. intros H. apply charges_are_leaves_P. now apply ops_clean3b_ok. Qed.
+
+(* the item containers (a module's charge slot, an item's autocharge dictionary): an item that names one
+   is listed by it, and an unloaded item has no autocharges *)
+Theorem item_containers_list_their_items pen ops :
+  ops_clean3b (init_sys pen) ops = true ->
+  let w := s_w (run (init_sys pen) ops) in
+  (forall c cit m, get_item w c = Some cit ->
+     (i_cont cit = Some (PCharge m) -> exists mit, get_item w m = Some mit /\ i_charge mit = Some c) /\
+     (i_cont cit = Some (PAuto m) -> exists mit, get_item w m = Some mit /\ In c (map snd (i_autos mit)))) /\
+  (forall i it, get_item w i = Some it -> i_loaded it = None -> i_autos it = []).
+Proof.
+  intros H w.
+  pose proof (run_KINV ops (init_sys pen) KINV_empty (ops_clean3b_ok ops _ H)) as (_ & _ & K & _).
+  split; [exact (kk_pc _ K)|exact (kk_au _ K)].
+Qed.
